@@ -111,6 +111,7 @@ class Ctx:
         self.known_hits = collections.Counter()
         self.failures = []
         self.env_trouble = []
+        self._tmp, self._tmp_n = None, 0
         self.extra = {}
         self.exhaustive = None
         self._case_n = 0
@@ -121,10 +122,16 @@ class Ctx:
 
     # ---- scratch
     def tmp(self):
-        d = os.path.join(self.work, "case")
-        shutil.rmtree(d, ignore_errors=True)
-        os.makedirs(d)
-        return d
+        """A fresh directory for this case, under a path no earlier case used: whatever the code under test
+        remembers per file name must not leak from one case into the next (a failure would not replay).
+        Carry-over between conversions is generated explicitly (the 'prior' steps of C01, C04, C11)."""
+        if self._tmp is not None:
+            shutil.rmtree(self._tmp, ignore_errors=True)
+        self._tmp_n += 1
+        self._tmp = os.path.join(self.work, f"case{self._tmp_n}")
+        shutil.rmtree(self._tmp, ignore_errors=True)
+        os.makedirs(self._tmp)
+        return self._tmp
 
     def hseed(self, name=""):
         h = hashlib.sha256(f"{self.prop}/{name}/{self.seed}/{self.shard}".encode()).digest()
